@@ -34,7 +34,9 @@ RAISES = ["LookupError", "KeyError", "ValueError", "CustomWithArgs", "Unprintabl
           "TimeoutError", "InvalidStateError", "FuturesCancelledError", "ExceptionGroup"]
 BRIDGE_KINDS = {"TimeoutError", "InvalidStateError", "FuturesCancelledError", "CancelledError"}
 ARGS = [([], {}), ([1], {}), ([], {"k": 1}), ([1, "two"], {"k": 1}), ([[1, 2]], {"opt": {"x": 1}}),
-        (["<grumpy>"], {}), ([1, "<grumpy>"], {"k": 1})]  # <grumpy>: an object whose repr() raises
+        (["<grumpy>"], {}), ([1, "<grumpy>"], {"k": 1}),
+        # keywords called like things the runtime itself has names for: they are the payload's all the same
+        ([], {"func": 1}), ([2], {"args": [3], "kwargs": {"x": 1}}), ([], {"runner": 2, "fn": 3, "target": 4, "name": 5})]  # <grumpy>: an object whose repr() raises
 
 
 def plan(tier, seed):
@@ -79,6 +81,11 @@ def gen_case(rnd, spec):
         calls.append(p["id"])
         return p
 
+    if rnd.random() < 0.3:
+        fl = rnd.choice(common.FLAVOURS)
+        gen["payloads"].append({"id": "shared0", "flavour": fl, "executed": True, "args": [], "kwargs": {}, "cleanup": {"kind": "none"}, "callable": "function",
+                                "program": [["sleep", rnd.choice([0.03, 0.06])], ["return", "str"]], "outcome": ["return", "str"]})
+        script += [["execute_same_burst", "shared0", rnd.choice([2, 2, 3, 4])], ["sleep", 0.3]]
     for _ in range(rnd.randint(1, 10)):
         ctx = rnd.choice(["outside", "outside", "thread", "coroutine", "helpers", "nested", "pair"])
         if ctx == "outside":
@@ -171,8 +178,25 @@ def judge(case, run, result):
             else:
                 homes["token"], homes["trio_thread"] = e["token"], e["th"]
     last_outcome = 0
+    for pid in sorted({c["pid"] for c in run.of("call", op="execute", gen=0) if c["pid"].startswith("shared")}):
+        # one callable object handed to execute() by several callers at once: every caller gets its own run and its outcome
+        calls_ = run.of("call", op="execute", gen=0, pid=pid)
+        outs = [e for e in run.events if e.get("op") == "execute" and e.get("pid") == pid and e["kind"] in ("return", "raised")]
+        starts = run.of("start", gen=0, pid=pid)
+        bad = [e for e in outs if e["kind"] == "raised" or not e.get("payload_returned")]
+        if len(outs) != len(calls_):
+            problems.append(("execute of one callable (%s, flavour=%s) by %d callers at once: %d outcomes were delivered" % (pid, specs[pid]["flavour"], len(calls_), len(outs)), None))
+        elif bad:
+            problems.append(("execute of one callable (%s, flavour=%s) by %d callers at once: caller %s got %s(%s) instead of the payload's return value"
+                             % (pid, specs[pid]["flavour"], len(calls_), bad[0]["by"], bad[0].get("exc"), bad[0].get("msg")), None))
+        elif len(starts) != len(calls_):
+            problems.append(("execute of one callable (%s) by %d callers at once: the payload was run %d times" % (pid, len(calls_), len(starts)), None))
+        result.count("executes_of_one_callable_by_several_callers_at_once", len(calls_))
+        last_outcome = max([last_outcome] + [e["seq"] for e in outs])
     for call in run.of("call", op="execute", gen=0):
         pid = call["pid"]
+        if pid.startswith("shared"):
+            continue
         sp = specs[pid]
         outs = [e for e in run.events if e.get("op") == "execute" and e.get("pid") == pid and e["kind"] in ("return", "raised")]
         if len(outs) != 1:
@@ -334,7 +358,7 @@ def run_shard(spec):
 
 
 def finish(total, tier):
-    need = ["executes_judged", "results_returned_by_identity", "exceptions_raised_by_identity", "runtimes_alive_after_executes",
+    need = ["executes_judged", "executes_of_one_callable_by_several_callers_at_once", "results_returned_by_identity", "exceptions_raised_by_identity", "runtimes_alive_after_executes",
             "executes_asyncio_from_outside", "executes_trio_from_outside", "executes_threading_from_outside",
             "executes_asyncio_from_tcaller", "executes_trio_from_tcaller", "executes_trio_from_ccaller", "executes_asyncio_from_ccaller"]
     need += ["awaitable_results_returned_as_they_are_%s" % f for f in common.FLAVOURS]
